@@ -27,6 +27,10 @@ def gen_configs(chk, kind, count):
     for dynamic in (True, False):
         yield dict(kind=kind, d=2, dynamic=dynamic, alpha=None, n_inner=1, model_kind="scalar", names_kind="str", storage_kind="geom",
                    storage_size=100, imputer_kind="joint", loss_kind="arbitrary", lbb=False, default_ctor=True)
+    # a storage that already holds observations at the explainer's first call (shared / filled by hand), both modes
+    for dynamic in (True, False):
+        yield dict(kind=kind, d=2, dynamic=dynamic, alpha=Q(1, 2), n_inner=1, model_kind="scalar", names_kind="str", storage_kind="uniform",
+                   storage_size=4, imputer_kind="joint", loss_kind="arbitrary", lbb=False, prefill=2)
     # a model whose label set grows and whose normalised mean prediction can have a zero sum
     yield dict(kind=kind, d=2, dynamic=False, alpha=Q(1, 2), n_inner=2, model_kind="grow", names_kind="mixed", storage_kind="geom",
                storage_size=2, imputer_kind="joint", loss_kind="arbitrary", lbb=False)
@@ -37,7 +41,7 @@ def gen_configs(chk, kind, count):
                    names_kind=rng.choice(["str", "int", "float", "mixed", "intish"]), storage_kind=sk, storage_size=max(ss, 1),
                    imputer_kind=rng.choice(["joint", "joint", "product", "default"]),
                    loss_kind=rng.choice(["arbitrary", "arbitrary", "squared", "absolute"]), lbb=rng.random() < 0.3,
-                   extra_features=rng.choice([0, 0, 1]))
+                   extra_features=rng.choice([0, 0, 1]), prefill=rng.choice([0, 0, 0, 1, 3]))
 
 
 def cfg_desc(cfg):
